@@ -246,25 +246,26 @@ def base_program(rng, nops, nfiles, nhandles, lifecycle):
         if mutated and rng.random() < 0.5:
             g.reads(g.fid[g.items[-1][1]] if g.items[-1][0] == "op" else None)
     g.reads()
-    return g.items
+    return g.items, list(g.live)
 
 
-def wrap_all(items, cap):
+def wrap_all(items, cap, live):
     opens = [i for i in items if i[0] == "open"]
     rest = [i for i in items if i[0] != "open"]
-    return opens + [["enter", cap]] + rest + [["exit"]] + _final_reads(items)
+    return opens + [["enter", cap]] + rest + [["exit"]] + _final_reads(live)
 
 
-def _final_reads(items):
-    js = sorted({i[1] for i in items if i[0] == "open"})
-    return [["op", j, [], ["get"]] for j in js]
+def _final_reads(live):
+    """Reads through every Job/Project object that is still in use (objects whose job was removed or re-keyed
+    through another object are not used again)."""
+    return [["op", j, [], ["get"]] for j in sorted(live)]
 
 
 def is_life(i):
     return i[0] in ("remove", "rekey", "init")
 
 
-def random_blocks(rng, items):
+def random_blocks(rng, items, live):
     """Insert properly nested enter/exit markers (and set_buffer_capacity) around runs without lifecycle items."""
     out, depth = [], 0
     for it in items:
@@ -287,7 +288,7 @@ def random_blocks(rng, items):
     while depth:
         out.append(["exit"])
         depth -= 1
-    return out + _final_reads(items)
+    return out + _final_reads(live)
 
 
 GOLDEN = [
@@ -363,15 +364,16 @@ def gen_inputs(tier, rng):
     for b in range(nbase):
         nops = rng.choice([3, 6, 10, 20, 40]) if tier == "quick" else rng.choice([2, 4, 8, 16, 30, 40])
         multi = rng.random() < 0.35
-        items = base_program(rng, nops, rng.randint(1, 4), 3 if multi else 1, lifecycle=rng.random() < 0.5)
+        items, live = base_program(rng, nops, rng.randint(1, 4), 3 if multi else 1, lifecycle=rng.random() < 0.5)
         thr = rng.random() < 0.8
         add(items, "unbuffered", thr)
+        # without the lifecycle items every object stays in use
         nolife = [i for i in items if not is_life(i)]
-        add(wrap_all(nolife, rng.choice([None, None, 0, 1, 40, 200])), "buffered", thr)
-        add(random_blocks(rng, items), "sub-blocks", thr, cap0=rng.choice([DEFAULT_CAP, DEFAULT_CAP, 0, 50, 300]))
+        everyone = sorted({i[1] for i in nolife if i[0] == "open"})
+        add(wrap_all(nolife, rng.choice([None, None, 0, 1, 40, 200]), everyone), "buffered", thr)
+        add(random_blocks(rng, items, live), "sub-blocks", thr, cap0=rng.choice([DEFAULT_CAP, DEFAULT_CAP, 0, 50, 300]))
         if multi:
-            # the same, multi-object but unbuffered blocks never share a file: exercises cross-handle reads
-            add(random_blocks(rng, nolife), "sub-blocks-shared", thr)
+            add(random_blocks(rng, nolife, everyone), "sub-blocks-shared", thr)
     if tier != "quick":
         for prog in exhaustive(3):
             add(prog, "exhaustive<=3")
